@@ -1970,6 +1970,11 @@ class Irc(IrcCommandDispatcher, log.Firewalled):
                 self.state.capabilities_ack.remove(cap)
             except KeyError:
                 pass
+            else:
+                # Our request for it was answered and stays answered:
+                # capUpkeep ends the negotiation once everything requested
+                # is either acknowledged or refused.
+                self.state.capabilities_nak.add(cap)
 
     def doCapNew(self, msg):
         # Note that in theory, this method may be called at any time, even
